@@ -24,7 +24,7 @@ func genC02(t *rapid.T) c06Case {
 		c.RPCs = append(c.RPCs, genRPC06(t, &excl))
 	}
 	if rapid.IntRange(0, 2).Draw(t, "points") == 0 {
-		c.Cfg.Points = rapid.SliceOfNDistinct(rapid.SampledFrom([]string{"conn.NewStream.afterNewClientStream", "conn.Invoke.afterNewClientStream",
+		c.Cfg.Points = rapid.SliceOfNDistinct(rapid.SampledFrom([]string{"conn.NewStream.afterNewClientStream", "conn.Invoke.afterNewClientStream", "conn.afterMetadata",
 			"manager.manageReader.beforeDispatch", "manager.newStream.beforeSet", "manager.acquireSemaphore.acquired", "manager.manageStream.ctxDone", "manager.manageStream.enter"}), 1, 3, func(s string) string { return s }).Draw(t, "pts")
 		c.Cfg.PointLimit = 10
 	}
@@ -66,6 +66,17 @@ func runC02(c c06Case) (r pbt.Result) {
 			return
 		}
 		early++
+	}
+	// a unary call depends on nothing but its own stream: with the transport flowing it returns by itself
+	// (with a response or an error) whatever the handler program does; if it had to be ended from outside,
+	// something left over from another call kept it from completing. (Calls issued one after the other only:
+	// a concurrent caller may legitimately be queued behind a call that stalls at application level.)
+	for k, p := range c.RPCs {
+		if !c.Concurrent && forcedRPCs[k] && p.Unary && len(p.CSubs) == 0 {
+			fail("a unary call did not complete although nothing on its own stream kept it from completing")
+			r.Detailf("rpc %d", k)
+			return
+		}
 	}
 	for rpc, n := range w.HStarted {
 		if n > 1 {
